@@ -1,23 +1,36 @@
-"""C06 round 7: the stream frame of the ZIP guard under a deductive contract.
+"""C06 round 7: the stream frame of the functions that touch the CALLER'S input buffer, under deductive contracts.
 
-Anchor of the property (properties.jsonl C06, mechanism "stream position save/restore"): `util/zip_bomb.py::validate_zip_bytesio`
-is handed the CALLER'S input buffer by every OOXML / ODF / EPUB extractor before anything is parsed.  Until round 6 C06 knew this
-function only through the dataflow frame ("only seek / tell / read on the buffer").  Now, for C06:
+Until round 6 C06 knew these functions only through dataflow obligations (`frame#input-buffer-only-read`,
+`stream#read-starts-at-offset-0`: a must-fact "seek(0) dominates read()").  Now, verified on the real bodies for every initial cursor:
 
-    validate_zip_bytesio(file_like, limits=..., source=...)
-        ensures      stream-position-restored            cursor(file_like) after == cursor(file_like) before      (normal return)
-        exc_ensures  stream-position-restored-on-raise   the same on EVERY exceptional exit (not a zip, rejected by the guard, ...)
+  util/zip_bomb.py::validate_zip_bytesio      (anchor of the property: "stream position save/restore")
+      ensures      stream-position-restored            cursor after == cursor before                              (normal return)
+      exc_ensures  stream-position-restored-on-raise   the same on EVERY exceptional exit (not a zip, rejected by the guard, ...)
+  archive_extractor.py::_detect_archive_type_optimized
+      ensures      stream-consumed-from-offset-0       every read of the buffer happens with the cursor at 0 (and there is one)
+      ensures      stream-left-at-offset-0             cursor == 0 at exit (tarfile / py7zr called next start from the cursor)
+  READERS (xlsx `_read_content`, read_rtf, read_mhtml, read_plain_text, read_msg_format_mail, read_mbox_format_mail)
+      ensures      stream-consumed-from-offset-0       as above
+      exc_ensures  stream-consumed-from-offset-0-on-raise   no read at a cursor other than 0 on a path that raises
 
-for every initial cursor position, whatever `zipfile.ZipFile(stream, "r")` does to the cursor and whether it or the guard raises.
 The value model (BytesIO = external object with a ghost cursor; `zipfile.ZipFile(...)` moves the cursor anywhere and may raise
 anything; `with zf:` closes it) and the executor are those of pack C11 (contracts/C11.py, contracts/common.py) -- the documented
-"reuse another pack's contract + executor for one function" pattern of ENGINE.md; the two clauses above are C06's own (C11 states
-the exceptional case as a `raises ... when` side condition; C06 needs it as a postcondition of its own with a replayable id).
+"reuse another pack's contract + executor for one function" pattern of ENGINE.md; the clauses are C06's own.  `read` is wrapped
+with a ghost log of the cursor at each read (`USES`).  In the readers the helpers of the package are unknown calls
+(`inline_calls=False`): any result, may raise, a buffer handed to them has its cursor anywhere afterwards -- so the contracts say
+WHERE the buffer is read, not what is computed from the bytes (that part of C06 stays with the dataflow families and the bounded
+validation).  `zipfile.ZipFile(stream)` is deliberately NOT a "read at the cursor": in mode "r" it locates the directory from the
+end of the stream, so a missing `seek(0)` before it is behaviour-preserving (a contract demanding it was tried and dropped: the
+replayer cannot, and should not, reproduce anything).
 
-Callee views used inside the body (not re-verified here, NOT counted by C06): `zip_bomb.py::validate_zipfile` and
-`zip_bomb.py::_is_directory` with the contracts that pack C11 verifies on the same source (`./check C11`); for the two clauses
-of this file only "may raise, does not touch the BytesIO cursor model except through the ZipFile constructor" matters.  They are
-listed in `ASSUMED_HERE` (-> evidence `assumed_contracts` of C06, marked "verified by pack C11").
+Callee views used inside `validate_zip_bytesio` (not re-verified here, NOT counted by C06): `zip_bomb.py::validate_zipfile` and
+`zip_bomb.py::_is_directory` with the contracts that pack C11 verifies on the same source (`./check C11`); for the clauses of
+this file only "may raise, does not touch the cursor except through the ZipFile constructor" matters.  They are listed in
+`ASSUMED_HERE` (-> evidence `assumed_contracts` of C06, marked "verified by pack C11").
+
+Refutations are never definite by themselves (the paths contain EXC-ANY sites: library calls that may raise): `post_report`
+of contracts/C06.py demotes them to `unknown` and replay/C06.py::stream_search decides with real inputs (one ASCII payload and
+fixtures of the module's kind at four cursor positions; results compared canonically, cursor / content / closed checked).
 """
 import z3
 
@@ -32,7 +45,9 @@ TARGET = f"{ZB}::validate_zip_bytesio"
 ASSUMED_HERE = [f"{ZB}::validate_zipfile (call-site view inside validate_zip_bytesio; verified by pack C11, not by C06)",
                 "zipfile.ZipFile(stream, 'r') / its context manager: moves the cursor of the stream anywhere, may raise anything, "
                 "never writes the stream (assumed library model of pack C11)",
-                "io.BytesIO.tell / seek (assumed library model contracts/common.py: tell() returns the cursor, seek(n) sets it, n < 0 raises)"]
+                "io.BytesIO.tell / seek / read / getvalue / getbuffer (assumed library model contracts/common.py + contracts/C06_zip.py: tell() "
+                "returns the cursor, seek(n[, 0]) sets it, n < 0 raises, any other whence leaves it anywhere; read() returns unknown bytes and "
+                "moves the cursor forward; getvalue() / getbuffer() neither depend on the cursor nor move it; io.BytesIO(x) is a fresh stream at 0)"]
 
 
 def contracts(reg):
